@@ -449,7 +449,6 @@ def mon_c02(hs, prev, op, ok, trace, cur, known):
     if bad is not None:
         return ('violation', 'the hub delegated %s to %s which is not a registered validator (registry: %s)'
                 % (bad[4], bad[3], ' '.join(sorted(registry_names(cur)))))
-    registered = set()
     for i, x in enumerate(tl):
         if x[1] == 'wasm' and x[3] == 'hub' and x[4] in ('bond', 'bond_for_st_sei', 'bond_rewards'):
             pay = sum(a for d, a in coins(x[5]) if d == 'usei')
@@ -457,9 +456,6 @@ def mon_c02(hs, prev, op, ok, trace, cur, known):
             j = i + 1
             while j < len(tl) and tl[j][1] == 'delegate' and tl[j][2] == 'hub':
                 tot += int(tl[j][4])
-                if registered and tl[j][3] not in registered:
-                    # a validator added earlier in the same transaction cannot occur (registry ops are separate txs)
-                    return ('violation', 'bond delegated to %s which is not a registered validator' % tl[j][3])
                 j += 1
             if tot != pay:
                 return ('violation', 'bond of %d usei delegated %d' % (pay, tot))
@@ -541,7 +537,10 @@ def mon_c03(hs, prev, op, ok, trace, cur, known):
     if not ok or prev is None or not standard(prev, cur, hs):
         return None
     pq = qstate(prev)
-    if pq is None or not recomputes(prev):
+    # (S9: no `recomputes(prev)` guard for the pricing clauses - the slashing check every pricing message starts
+    # with and the State query are the same function, and both return the STORED state unchanged when the hub
+    # has no delegation or books nothing: also the first bond ever is priced at the rate the query reported)
+    if pq is None:
         return None
     hp = ints([prev.one('hub.params')[i] for i in (3, 4)])
     pegfee, thr = hp
@@ -899,6 +898,31 @@ def mon_c07(hs, prev, op, ok, trace, cur, known):
     for i, e in h.items():
         if not e['rel'] and i not in per and (e['bamt'], e['samt']) != (0, 0):
             return ('violation', 'batch %d records (%d,%d) but no user holds a claim on it' % (i, e['bamt'], e['samt']))
+    # P07a: the paged AllHistory answers (small pages 2|3|2|3 with the last id as cursor, the default limit 10,
+    # the maximal limit 100) are faithful to the stored history: same ids in ascending order, no entry
+    # skipped or repeated at a page boundary, and the deprecated alias fields carry the bSei values
+    qh = cur.all('hub.qhist')
+    if not any(x and x[0] == 'err' for x in qh):
+        ids_ = sorted(h)
+        want_, cursor_ = [], 0
+        for k_, lim_ in enumerate((2, 3, 2, 3)):
+            page_ = [i for i in ids_ if i > cursor_][:lim_]
+            want_ += [[str(k_), str(i), str(h[i]['bamt']), str(h[i]['bapp']), str(h[i]['bwd'])] for i in page_]
+            if len(page_) < lim_:
+                break
+            cursor_ = page_[-1]
+        if qh != want_:
+            bad_ = next((a_ for a_, b_ in zip(qh, want_) if a_ != b_), (qh[len(want_):] or want_[len(qh):] or [[]])[0])
+            return ('violation', 'AllHistory paged 2|3|2|3 returned %d entries, the stored history gives %d; first difference at %s '
+                    '(stored ids %s)' % (len(qh), len(want_), ' '.join(bad_), ids_[:12]))
+        qd_, qm_ = cur.one('hub.qhist.def'), cur.one('hub.qhist.max')
+        if qd_ is not None and not (qd_ and qd_[0] == 'err') and [x for x in qd_ if x] != [str(i) for i in ids_[:10]]:
+            return ('violation', 'AllHistory without limit returned ids %s, the first ten stored ids are %s' % (' '.join(qd_), ids_[:10]))
+        if qm_ is not None and len(qm_) == 2 and qm_[0] != 'err':
+            n_ = min(len(ids_), 100)
+            if qm_ != [str(n_), str(ids_[n_ - 1]) if n_ else '-']:
+                return ('violation', 'AllHistory with limit 1000 returned %s entries ending at %s; stored: %d entries, the first %d end at %s'
+                        % (qm_[0], qm_[1], len(ids_), n_, ids_[n_ - 1] if n_ else '-'))
     if prev is None or prev.one('hub.cfg') is None:
         return None
     pw = {(w[0], w[1]): (w[2], w[3]) for w in waits(prev)}
